@@ -40,6 +40,15 @@ def getBool (toks : List String) (k : String) : Option Bool :=
   | some "0" => some false
   | _ => none
 
+/-- `dt=<cd><cf><cy>`: 1 = the data / filter / output-side array has a complex dtype -/
+def getDt (toks : List String) : Option (Bool × Bool × Bool) :=
+  match (kv toks "dt").map String.toList with
+  | some [a, b, c] =>
+    if [a, b, c].all (fun ch => ch == '0' || ch == '1') then some (a == '1', b == '1', c == '1') else none
+  | _ => none
+
+def GI.rePart (a : GI) : GI := ⟨a.re, 0⟩
+
 def fn (a : Array GI) (i : Int) : GI := if 0 ≤ i ∧ i < a.size then a.getD i.toNat 0 else 0
 
 /-- protocol handler for property C08 (tokens after the property id). -/
@@ -49,23 +58,23 @@ def handle (toks : List String) : String :=
   let getA (k : String) := (kv toks k).bind parseGIList?
   match toks.head? with
   | some "conv" =>
-    match getL "dsh", getL "fsh", getMode toks, optList toks "st", getBool toks "mc", getA "d", getA "f" with
-    | some dsh, some fsh, some full, some st, some mc, some d, some f =>
+    match getL "dsh", getL "fsh", getMode toks, optList toks "st", getBool toks "mc", getDt toks, getA "d", getA "f" with
+    | some dsh, some fsh, some full, some st, some mc, some (cd, cf, _), some d, some f =>
       if d.size ≠ (shapeProd dsh).toNat ∨ f.size ≠ (shapeProd fsh).toNat then "err size" else
-      reply (convolve dsh fsh full st mc d f)
-    | _, _, _, _, _, _, _ => "err bad-op"
+      reply (convolve dsh fsh full st mc cd cf d f)
+    | _, _, _, _, _, _, _, _ => "err bad-op"
   | some "dadj" =>
-    match getL "dsh", getL "fsh", getMode toks, optList toks "st", getBool toks "mc", getL "ysh", getA "y", getA "f" with
-    | some dsh, some fsh, some full, some st, some mc, some ysh, some y, some f =>
+    match getL "dsh", getL "fsh", getMode toks, optList toks "st", getBool toks "mc", getDt toks, getL "ysh", getA "y", getA "f" with
+    | some dsh, some fsh, some full, some st, some mc, some (cd, cf, cy), some ysh, some y, some f =>
       if y.size ≠ (shapeProd ysh).toNat ∨ f.size ≠ (shapeProd fsh).toNat then "err size" else
-      reply (adjoint GI.conj true dsh fsh full st mc ysh y f)
-    | _, _, _, _, _, _, _, _ => "err bad-op"
+      reply (adjoint GI.conj GI.rePart true dsh fsh full st mc cd cf cy ysh y f)
+    | _, _, _, _, _, _, _, _, _ => "err bad-op"
   | some "fadj" =>
-    match getL "dsh", getL "fsh", getMode toks, optList toks "st", getBool toks "mc", getL "ysh", getA "y", getA "d" with
-    | some dsh, some fsh, some full, some st, some mc, some ysh, some y, some d =>
+    match getL "dsh", getL "fsh", getMode toks, optList toks "st", getBool toks "mc", getDt toks, getL "ysh", getA "y", getA "d" with
+    | some dsh, some fsh, some full, some st, some mc, some (cd, cf, cy), some ysh, some y, some d =>
       if y.size ≠ (shapeProd ysh).toNat ∨ d.size ≠ (shapeProd dsh).toNat then "err size" else
-      reply (adjoint GI.conj false dsh fsh full st mc ysh y d)
-    | _, _, _, _, _, _, _, _ => "err bad-op"
+      reply (adjoint GI.conj GI.rePart false dsh fsh full st mc cd cf cy ysh y d)
+    | _, _, _, _, _, _, _, _, _ => "err bad-op"
   -- the 1-D single-channel layer the theorems are about (domain: full, or valid with m ≥ n; s ≥ 1)
   | some "conv1" =>
     match getI "m", getI "n", getI "s", getMode toks, getA "d", getA "f" with
@@ -100,19 +109,19 @@ def handle (toks : List String) : String :=
         if d.size ≠ (B * ci * m).toNat ∨ f.size ≠ (co * ci * n).toNat then "err size" else
         reply (.ok ([B, co, p], ((allIdx [B, co, p]).map fun idx =>
           match idx with
-          | [b, o, k] => convMC1At full m n s ci.toNat (arr3 [B, ci, m] d) (arr3 [co, ci, n] f) b o k
+          | [b, o, k] => convMC1At full m n s B.toNat co.toNat ci.toNat (arr3 [B, ci, m] d) (arr3 [co, ci, n] f) b o k
           | _ => 0).toArray))
       | "dadj", _, some f, some y =>
         if y.size ≠ (B * co * p).toNat ∨ f.size ≠ (co * ci * n).toNat then "err size" else
         reply (.ok ([B, ci, m], ((allIdx [B, ci, m]).map fun idx =>
           match idx with
-          | [b, c, i] => dataAdjMC1At GI.conj full m n s co.toNat (arr3 [B, co, p] y) (arr3 [co, ci, n] f) b c i
+          | [b, c, i] => dataAdjMC1At GI.conj full m n s B.toNat co.toNat ci.toNat (arr3 [B, co, p] y) (arr3 [co, ci, n] f) b c i
           | _ => 0).toArray))
       | "fadj", some d, _, some y =>
         if y.size ≠ (B * co * p).toNat ∨ d.size ≠ (B * ci * m).toNat then "err size" else
         reply (.ok ([co, ci, n], ((allIdx [co, ci, n]).map fun idx =>
           match idx with
-          | [o, c, j] => filtAdjMC1At GI.conj full m n s B.toNat (arr3 [B, co, p] y) (arr3 [B, ci, m] d) o c j
+          | [o, c, j] => filtAdjMC1At GI.conj full m n s B.toNat co.toNat ci.toNat (arr3 [B, co, p] y) (arr3 [B, ci, m] d) o c j
           | _ => 0).toArray))
       | _, _, _, _ => "err bad-op"
     | _, _, _, _, _, _, _, _ => "err bad-op"
@@ -170,5 +179,37 @@ def handle (toks : List String) : String :=
         reply (.ok (n, ((allIdx n).map fun j => adjD GI.conj axF (readZ p y) (readZ m d) j).toArray))
       | _, _, _, _ => "err bad-op"
     | _, _, _, _, _ => "err bad-op"
+  -- the D-dimensional batch / multi-channel layer with the generated wiring (theorems …_nd_mc); arrays of shape
+  -- [B, ci] + m, [co, ci] + n, [B, co] + p; domain: full, or valid with m ≥ n on every axis or m < n on every axis
+  | some "mcD" =>
+    match kv toks "which", getI "B", getI "ci", getI "co", getL "m", getL "n", getL "s", getMode toks with
+    | some which, some B, some ci, some co, some m, some n, some s, some full =>
+      if B < 1 ∨ ci < 1 ∨ co < 1 ∨ m.length ≠ n.length ∨ m.length ≠ s.length ∨ m.isEmpty ∨ (m ++ n ++ s).any (· < 1) ∨
+          (!full ∧ Gen.convValidRejects m n) then "err domain" else
+      let axD := mkAxes true full m n s
+      let axF := mkAxes false full m n s
+      let p := axD.map (·.p)
+      let arrN (sh : List Int) (a : Array GI) (i j : Int) (r : List Int) : GI := readZ sh a (i :: j :: r)
+      match which, getA "d", getA "f", getA "y" with
+      | "conv", some d, some f, _ =>
+        if d.size ≠ (shapeProd ([B, ci] ++ m)).toNat ∨ f.size ≠ (shapeProd ([co, ci] ++ n)).toNat then "err size" else
+        reply (.ok ([B, co] ++ p, ((allIdx ([B, co] ++ p)).map fun idx =>
+          match idx with
+          | b :: o :: k => convMCD axD B.toNat co.toNat ci.toNat (arrN ([B, ci] ++ m) d) (arrN ([co, ci] ++ n) f) b o k
+          | _ => 0).toArray))
+      | "dadj", _, some f, some y =>
+        if y.size ≠ (shapeProd ([B, co] ++ p)).toNat ∨ f.size ≠ (shapeProd ([co, ci] ++ n)).toNat then "err size" else
+        reply (.ok ([B, ci] ++ m, ((allIdx ([B, ci] ++ m)).map fun idx =>
+          match idx with
+          | b :: c :: i => dataAdjMCD GI.conj axD B.toNat co.toNat ci.toNat (arrN ([B, co] ++ p) y) (arrN ([co, ci] ++ n) f) b c i
+          | _ => 0).toArray))
+      | "fadj", some d, _, some y =>
+        if y.size ≠ (shapeProd ([B, co] ++ p)).toNat ∨ d.size ≠ (shapeProd ([B, ci] ++ m)).toNat then "err size" else
+        reply (.ok ([co, ci] ++ n, ((allIdx ([co, ci] ++ n)).map fun idx =>
+          match idx with
+          | o :: c :: j => filtAdjMCD GI.conj axF B.toNat co.toNat ci.toNat (arrN ([B, co] ++ p) y) (arrN ([B, ci] ++ m) d) o c j
+          | _ => 0).toArray))
+      | _, _, _, _ => "err bad-op"
+    | _, _, _, _, _, _, _, _ => "err bad-op"
   | _ => "err bad-op"
 end SigpyVerif.Drv.C08
